@@ -31,7 +31,7 @@ Lemma goodl_forallb l : goodl l -> forall g, forallb (contract g) l = true.
 Proof. induction 1 as [|d r Hd Hr IH]; intros g; simpl; [reflexivity|]. rewrite Hd, IH. reflexivity. Qed.
 
 Lemma goodl_app a b : goodl a -> goodl b -> goodl (a ++ b).
-Proof. apply Forall_app. Qed.
+Proof. intros Ha Hb. apply Forall_app. split; assumption. Qed.
 
 (* building a node from good parts *)
 Lemma good_node k n a aa num h sh fr ch :
@@ -95,7 +95,7 @@ Section WithTd.
   Variable td : tree -> R dnode.
   Hypothesis Htd : forall t d, td t = OkR d -> good d.
 
-  Lemma many_good g : forall items out, many_to_dict inp td g items = OkR out -> goodl out.
+  Lemma many_good g : forall items out, many_to_dict td g items = OkR out -> goodl out.
   Proof.
     induction g as [|g IH]; intros items out H; [discriminate|]. cbn [many_to_dict] in H.
     eapply concatMapR_good; [|exact H]. intros item ds Hi. cbv beta in Hi.
@@ -119,4 +119,84 @@ Section WithTd.
 
   Lemma inline_many_good items out : inline_many inp td items = OkR out -> goodl out.
   Proof. apply inline_go_good. Qed.
+
+  Ltac crunch H :=
+    repeat match type of H with
+    | bind ?x _ = OkR _ => let E := fresh "E" in destruct x eqn:E; cbn [bind] in H; [|discriminate H]
+    | (let '(_, _) := ?x in _) = OkR _ => destruct x
+    | (if ?b then _ else _) = OkR _ => destruct b
+    | match ?x with _ => _ end = OkR _ => destruct x; try discriminate H
+    end.
+
+  Ltac gt :=
+    repeat first
+      [ assumption
+      | apply Forall_nil
+      | apply goodl_app
+      | apply Forall_cons
+      | apply good_empty_p | apply good_empty_hcontainer | apply good_text
+      | (eapply many_good; eassumption)
+      | (eapply inline_many_good; eassumption)
+      | (eapply mapR_good; [|eassumption]; exact Htd)
+      | (eapply Htd; eassumption)
+      | apply good_elem | apply good_hcontainer
+      | (apply good_node; [kind_ok | try discriminate; intros; try reflexivity | some_inv | some_inv | some_inv | some_inv])
+      ].
+
+  Lemma subheading_list_good t out : subheading_list inp td t = OkR out -> goodl out.
+  Proof. unfold subheading_list. intros H. crunch H; inversion H; subst; gt. Qed.
+
+  Lemma from_list_good t out : from_list inp td t = OkR out -> goodl out.
+  Proof. unfold from_list. intros H. crunch H. gt. Qed.
+
+  Lemma hier_heading_good h o : hier_heading_to_dict inp td h = OkR o -> forall l, o = Some l -> goodl l.
+  Proof. unfold hier_heading_to_dict. intros H l ->. crunch H; inversion H; subst; gt. Qed.
+
+  Lemma truthy_good o : (forall l, o = Some l -> goodl l) -> forall l, truthy_list o = Some l -> goodl l.
+  Proof. intros H l E. destruct o as [[|x r]|]; simpl in E; try discriminate; inversion E; subst; apply H; reflexivity. Qed.
+
+  Lemma update_dict_good h num hd : update_dict inp td h = OkR (num, hd) -> forall l, hd = Some l -> goodl l.
+  Proof.
+    unfold update_dict. intros H. crunch H; inversion H; subst; try discriminate.
+    all: eapply truthy_good; eapply hier_heading_good; eassumption.
+  Qed.
+
+  Lemma attachment_heading_good h o : attachment_heading_to_dict inp td h = OkR o -> forall l, o = Some l -> goodl l.
+  Proof. unfold attachment_heading_to_dict. intros H l ->. crunch H; inversion H; subst; gt. Qed.
+
+  Lemma class_attr_In {A} (table : list (str * A)) t v : class_attr table t = Some v -> exists k, In (k, v) table.
+  Proof.
+    unfold class_attr. destruct (node_type t) as [ty|]; [|discriminate]. generalize (mro ty) as l.
+    induction l as [|c r IH]; [discriminate|]. destruct (assoc_str c table) as [x|] eqn:E.
+    - intros H. inversion H; subst. eapply assoc_str_In. exact E.
+    - exact IH.
+  Qed.
+
+  Lemma type_attr_table :
+    forallb (fun kv : str * str => str_eqb (snd kv) (of_string "hier") || str_eqb (snd kv) (of_string "speechhier")) class_type_attr = true.
+  Proof. vm_compute. reflexivity. Qed.
+
+  Lemma type_attr_kind t ty : class_attrR class_type_attr t = OkR ty ->
+    mem_str ty kinds = true /\ str_eqb ty (of_string "marker") = false.
+  Proof.
+    unfold class_attrR. destruct (class_attr class_type_attr t) as [v|] eqn:E; [|discriminate].
+    intros H. inversion H; subst. apply class_attr_In in E as (k & Hin).
+    pose proof type_attr_table as T. rewrite forallb_forall in T. specialize (T _ Hin). cbn [snd] in T.
+    apply orb_true_iff in T as [T|T]; apply str_eqb_spec in T; subst; split; reflexivity.
+  Qed.
+
+  Variable fuel : nat.
+
+  Lemma hier_good t d : hier_to_dict inp td fuel t = OkR d -> good d.
+  Proof.
+    unfold hier_to_dict. intros H. crunch H.
+    all: match goal with E : class_attrR class_type_attr _ = OkR _ |- _ => destruct (type_attr_kind _ _ E) as [K1 K2] end.
+    all: inversion H; subst.
+    all: apply good_node; [exact K1|rewrite K2; discriminate| | |some_inv|some_inv].
+    all: try some_inv; try discriminate.
+    all: try (intros l0 Hl0; inversion Hl0; subst).
+    all: try (eapply update_dict_good; [eassumption|reflexivity]).
+    all: try (eapply subheading_list_good; eassumption).
+    all: gt.
+  Qed.
 End WithTd.
